@@ -45,6 +45,15 @@ META = {
         "note": "Same bounds as C03.",
         "technique": "stateful property-based testing (rapid) with per-reconcile invariant monitor",
     },
+    "C15": {
+        "text": "Random and coverage-guided generation of CRD-admitted objects, pod populations and ControllerRevisions (incl. hostile revision data), each "
+                "reconciled several times with kubelet progress in between; any panic is reported with the first repo frame as signature. Found and "
+                "repaired four distinct crashes; exploration is the right level because the crash sites are data-dependent and shallow once the input "
+                "shape is generated.",
+        "design_ref": "DESIGN.md section 3, C15",
+        "note": "Domain = what the shipped CRD schema enforces (DESIGN section 3 C15); replicas <= 8; the decode step JSON -> Go types is assumed (objects are generated as Go values).",
+        "technique": "property-based testing (rapid) + native go fuzzing via rapid.MakeFuzz; crash oracle",
+    },
 }
 
 _pending = "check not built yet in this round of the build; planned per DESIGN.md section 3 (generated-input search applies)"
